@@ -545,6 +545,47 @@ func raceScenarios() []raceScenario {
 		})
 		vsched.Quiesce()
 	}, true})
+	// (xiii) two Clients of one process (a bridge, say) connect and disconnect at the same time:
+	// Connect and the end of a client connection write the process-wide provider registry
+	out = append(out, raceScenario{"client: two Clients of one process, Connect || Connect, then Disconnect || Disconnect", func() {
+		w := NewClientWorld()
+		vsched.Mark()
+		for i := 0; i < 2; i++ {
+			i := i
+			vsched.Go(fmt.Sprintf("app%d", i), func() {
+				cl := &service.Client{BufferSize: 16384}
+				cm := message.NewConnectMessage()
+				cm.SetVersion(4)
+				cm.SetClientID([]byte(fmt.Sprintf("c%d", i)))
+				cm.SetCleanSession(true)
+				cm.SetKeepAlive(60)
+				if cl.Connect("tcp://"+addr, cm) == nil {
+					cl.Disconnect()
+				}
+			})
+		}
+		vsched.Go("server", func() {
+			for k := 0; k < 2; k++ {
+				c, err := w.Ln.Accept()
+				if err != nil {
+					return
+				}
+				vsched.Go(fmt.Sprintf("server-conn%d", k), func() {
+					buf := make([]byte, 4096)
+					if _, err := c.Read(buf); err != nil {
+						return
+					}
+					c.Write(refcodec.Encode(&refcodec.Packet{Type: refcodec.CONNACK}))
+					for {
+						if _, err := c.Read(buf); err != nil {
+							return
+						}
+					}
+				})
+			}
+		})
+		vsched.Quiesce()
+	}, true})
 	return out
 }
 
